@@ -122,6 +122,15 @@ func (d *FileSystemDirectory) Persist(kind string, id uint64, w WriterTo, closeC
 		_ = os.Remove(path)
 	}
 
+	// a file of this name may be left over from an earlier interrupted
+	// attempt; now that we hold the exclusive lock, start from an empty file
+	// so that no stale tail survives behind the new contents
+	err = f.File().Truncate(0)
+	if err != nil {
+		cleanup()
+		return err
+	}
+
 	_, err = w.WriteTo(f.File(), closeCh)
 	if err != nil {
 		cleanup()
